@@ -1427,7 +1427,10 @@ def eval_typed(chk, case):
     chk.nontriv(("typed", tv, case["N"], case["kind"], case["normalize"], case["shift"], case["L"], case["rx"]))
     bad = typed_judge(case, *r[:6])
     if bad:
-        chk.fail(("typed_arguments", tv, "normalize_on" if case["normalize"] else "normalize_off", bad[0]), case,
+        sig = ("typed_arguments", tv, bad[0])
+        if bad[0].startswith("estimate_not_exact"):
+            sig = ("typed_arguments", tv, "normalize_on" if case["normalize"] else "normalize_off", bad[0])
+        chk.fail(sig, case,
                  observed=bad[1], expected="the relations the Python-typed call satisfies",
                  msg="same values, arguments presented as %s" % tv)
 
